@@ -320,7 +320,8 @@ class SchedulingSolver(BaseModelWithJson):
                     asst = z3.ForAll(
                         x,
                         z3.If(
-                            x == t._start,
+                            # a task that is not scheduled does not access the buffer
+                            z3.And(x == t._start, t._scheduled),
                             f(x) == -buffer._unloading_tasks[t],
                             f(x) == 0,
                         ),
@@ -338,7 +339,9 @@ class SchedulingSolver(BaseModelWithJson):
                     asst = z3.ForAll(
                         x,
                         z3.If(
-                            x == t._end, f(x) == +buffer._loading_tasks[t], f(x) == 0
+                            z3.And(x == t._end, t._scheduled),
+                            f(x) == +buffer._loading_tasks[t],
+                            f(x) == 0,
                         ),
                     )
                     self.append_z3_assertion(asst)
@@ -374,13 +377,20 @@ class SchedulingSolver(BaseModelWithJson):
                     self.append_z3_assertion(
                         buffer_mapping
                         == z3.Store(
-                            buffer_mapping, t._start, -buffer._unloading_tasks[t]
+                            buffer_mapping,
+                            t._start,
+                            # a task that is not scheduled does not access the buffer
+                            z3.If(t._scheduled, -buffer._unloading_tasks[t], 0),
                         )
                     )
                 for t in buffer._loading_tasks:
                     self.append_z3_assertion(
                         buffer_mapping
-                        == z3.Store(buffer_mapping, t._end, +buffer._loading_tasks[t])
+                        == z3.Store(
+                            buffer_mapping,
+                            t._end,
+                            z3.If(t._scheduled, +buffer._loading_tasks[t], 0),
+                        )
                     )
                 # and, for the other, the buffer level i+1 is the buffer level i +/- the buffer change
                 for i in range(len(buffer._buffer_levels) - 1):
@@ -638,6 +648,11 @@ class SchedulingSolver(BaseModelWithJson):
                 z3_sol[sct_z3_var].as_long()
                 for sct_z3_var in buffer._level_changes_time
             ]
+            # the tasks that are not scheduled lie in the past and do not change the
+            # level: their instants are not level changes
+            while change_level_times and change_level_times[0] < 0:
+                change_level_times.pop(0)
+                level_values.pop(1)
             # need to fix the results if ever the buffer
             # has been loaded/unloaded by concurrent tasks
             (
